@@ -329,8 +329,8 @@ def conc_jobs(tier, seed):
     every schedule in real threads parked by the yield hook and TLC validates tags and outputs against the model."""
     quick = tier == 'quick'
     jobs = []
-    combos = [(1, 1), (2, 1), (3, 1), (1, 3), (5, 1), (6, 2), (7, 1)] if quick else \
-             [(1, 1), (2, 1), (3, 1), (4, 1), (1, 3), (2, 3), (1, 2), (3, 2), (5, 1), (1, 4), (1, 5), (3, 4), (6, 2), (6, 1), (7, 1), (7, 2), (8, 2), (8, 1)]
+    combos = [(1, 1), (2, 1), (3, 1), (1, 3), (5, 1), (6, 2), (7, 1), (3, 6), (6, 7)] if quick else \
+             [(1, 1), (2, 1), (3, 1), (4, 1), (1, 3), (2, 3), (1, 2), (3, 2), (5, 1), (1, 4), (1, 5), (3, 4), (6, 2), (6, 1), (7, 1), (7, 2), (8, 2), (8, 1), (3, 6), (6, 7), (4, 6), (7, 7)]
     for sh, op in combos:
         jobs.append(dict(kind='mc', name=f'mc_sched_{sh}_{op}', module='Gen_Sched.tla', constants=dict(ShapeId=sh, OpsId=op, SharedMode=False, Rounds=0, Big=False),
                          invariants=['InvSequential'], properties=[], workers=4, timeout=900, view='SView'))
@@ -341,8 +341,8 @@ def conc_jobs(tier, seed):
         jobs.append(dict(kind='mc', name=f'mc_sched_{sh}_{op}', module='Gen_Sched.tla', constants=dict(ShapeId=sh, OpsId=op, SharedMode=False, Rounds=0, Big=False),
                          invariants=['InvSequential'], properties=[], workers=4, timeout=900, view='SView'))
     # free-running rounds: real parallel threads, the interleaving is inferred by TLC (StamConcurrency!FreeConforms)
-    free = [(6, 2, True), (7, 4, True), (2, 1, False), (3, 4, False)] if quick else \
-           [(6, 2, True), (6, 4, True), (7, 4, True), (7, 2, True), (8, 2, True), (2, 1, False), (2, 3, False), (3, 4, False), (4, 4, False), (1, 5, False)]
+    free = [(6, 2, True), (7, 4, True), (2, 1, False), (3, 4, False), (3, 6, False)] if quick else \
+           [(6, 2, True), (6, 4, True), (7, 4, True), (7, 2, True), (8, 2, True), (2, 1, False), (2, 3, False), (3, 4, False), (4, 4, False), (1, 5, False), (3, 6, False), (4, 6, False), (7, 7, True)]
     for sh, op, big in free:
         jobs.append(dict(kind='module_gen', name=f'free_{sh}_{op}', module='Gen_Sched.tla',
                          constants=dict(ShapeId=sh, OpsId=op, SharedMode=True, Rounds=(6 if big else 12) if quick else (25 if big else 60), Big=big), style=0))
